@@ -1,10 +1,10 @@
 CONSTANTS
  Alphabet <- MCAlphabet
  RootKinds <- MCRoots
- MaxRoots = 3
- MaxNodes = 5
+ MaxRoots = 8
+ MaxNodes = 11
  MaxDepth = 5
- MinDump = 0
+ MinDump = 5
  Dump = TRUE
 INIT Init
 NEXT Next
